@@ -16,6 +16,7 @@ RULE_MODULES: Dict[str, str] = {
     "R19": "r19_cyclegate",
     "R20": "r20_connect",
     "R22": "r22_classify",
+    "R23": "r23_adapters",
     "R24": "r24_helpers",
     "R11": "r11_reply",
 }
@@ -36,8 +37,10 @@ PROPERTY_RULES: Dict[str, List[str]] = {
     "C11": ["R7/R9", "R20", "R19/interval", "R19/group_path", "R22/readers", "R22/tuple"],
     "C12": ["R22"],
     "C13": ["R11", "R3/P2", "R3/P6"],
+    "C15": ["R23", "R3/P3b"],
     "C16": ["R1/O2", "R1/O4", "R20/async", "R20/connect"],
     "C17": ["R2/rt", "R4/wait"],
+    "C18": ["R24"],
 }
 
 EXPLANATION: Dict[str, str] = {}
@@ -66,10 +69,14 @@ CLAIMS: Dict[str, Tuple[str, str]] = {
             "the value-level input/output relation of parse_attrs over all concrete descriptions"),
     "C13": ("decision table of scheduler.step / get_outputs over the reply: every malformed reply class has a dominating SimulationError naming the simulator and precedes every effect; the popped step is never re-inserted",
             "reply classes not listed in the statement"),
+    "C15": ("request shapes of every Proxy.send site (step: exactly 3 positional arguments, no keyword arguments), the feature/adapter table (max_advance, setup_done, missing type), thresholds and nesting order of the adapters for representative versions, the two rejections dominate the wrapping, configured and reported versions are parsed alike, in-process time_resolution handling",
+            "'sees the same scheduling and data as a current-version simulator' (behaviour)"),
     "C16": ("the producer waits unconditionally for its async consumers",
             "the ordering clause over executions; gating/consume-once are added by R10/R17 when implemented"),
     "C17": ("real-time progress term present, guarded by rt_factor and measured from rt_start; polling wait with timeout=rt_factor and progress advance after each wake-up",
             "every wall-clock clause (timing is a runtime quantity)"),
+    "C18": ("returned set == set of destinations passed to connect (same loop nest, same conditions), one connect per source in connect_many_to_one and _connect_randomly, chunk stride == window width in _connect_evenly, count++ then removal iff count >= max_connects",
+            "the numeric clauses (difference <= 1, behaviour at the exact capacity boundary, D6)"),
 }
 
 ASSUMPTIONS_COMMON = [
